@@ -60,18 +60,22 @@ def run(ck):
     thorough = ck.tier == "thorough"
     triples = []     # (arch, site text, v, chained, before, after, never)
     for arch in asmk.ARCHES:
-        sites = site_forms(arch, rng, None if thorough else 3)
+        # every operand site of every accepted form (each is its own piece of code in the instruction parsers)
+        sites = site_forms(arch, rng, None)
         for f, a, b in sites:
             stmt = " " + f[:a] + "vv1" + f[b:]
             vals = VALUES + [ORG + 2 + d for d in (-129, -128, -1, 0, 1, 127, 128)]
             if not thorough:
-                vals = rng.sample(vals, 9) + [0xFF, 0x100]
+                vals = rng.sample(vals, 3) + [5, 0xFF, 0x100]
             for v in vals:
                 for ch in (False, True):
                     triples.append((arch, stmt, v, ch) + variants(stmt, v, ch))
     for stmt in ["@db vv1", "@db 1, vv1, 2", "@dw vv1", "@dw vv1, vv1", "@ds 3, vv1", "@assert vv1", "@assert vv1 - 7, \"m\"",
                  "@db vv1 + 1", "@dw vv1 * 2", "@db < vv1", "@db > vv1", "@dw vv1 + vv1", "@dw ( vv1 << 8 ) | vv1",
-                 "@db vv1 ^ vv1", "@ds 2, vv1 - vv1 + 3", "@assert vv1 == vv1"]:
+                 "@db vv1 ^ vv1", "@ds 2, vv1 - vv1 + 3", "@assert vv1 == vv1",
+                 # the same inside an ADDR segment (nothing is emitted there, but an assertion still counts)
+                 '@segment "ADDR"\n@assert vv1', '@segment "ADDR"\n@ds 2\n@assert vv1 - 7, "m"\n@segment "CODE"\n@db 1',
+                 '@segment "ADDR"\n@assert vv1 == 8\n@dw 1\n@assert vv1 < 9']:
         for v in VALUES + [7, 8]:
             for ch in (False, True, 2):
                 triples.append(("z80", stmt, v, ch) + variants(stmt, v, ch))
